@@ -164,6 +164,73 @@ def _r1(run, st):
         run.holds("C19.R1", f, cfg.nodes[min(joins)].ast, "exit status inspected after the joins, raise depends on it", **facts)
 
 
+def _reaches_unchecked(cfg, f, try_stmt, start, target, checks):
+    """Can control go from the handler (node *start*) back to the loop head (*target*) without passing a liveness check?
+    Path-sensitive in one respect: when the try body is `v = <receive>` and v was set to None just before the try, then v
+    is None on the handler's paths, and branches on `v is None` / `v is not None` / `v` are followed accordingly."""
+    none_vars = set()
+    if len(try_stmt.body) == 1 and isinstance(try_stmt.body[0], ast.Assign) and all(isinstance(t, ast.Name) for t in try_stmt.body[0].targets):
+        tgt = {t.id for t in try_stmt.body[0].targets}
+        # the statement(s) right before the try in the same block
+        for s_, blk in enclosing_stmts(f.node, try_stmt) + [(f.node, "body")]:
+            for fld in ("body", "orelse", "finalbody"):
+                lst = getattr(s_, fld, None)
+                if isinstance(lst, list) and try_stmt in lst:
+                    i = lst.index(try_stmt)
+                    j = i - 1
+                    while j >= 0 and isinstance(lst[j], ast.Assign) and all(isinstance(t, ast.Name) for t in lst[j].targets):
+                        if isinstance(lst[j].value, ast.Constant) and lst[j].value.value is None:
+                            none_vars |= {t.id for t in lst[j].targets} & tgt
+                        j -= 1
+
+    def branch_ok(n, lab):
+        """May the edge *lab* out of if-node n be taken when every variable of none_vars is None?"""
+        if n.kind != "if" or not none_vars or lab not in ("T", "F"):
+            return True
+        t = n.ast.test
+        neg = False
+        while isinstance(t, ast.UnaryOp) and isinstance(t.op, ast.Not):
+            neg, t = not neg, t.operand
+        truth = None      # truth value of the test when the variable is None
+        if isinstance(t, ast.Compare) and len(t.ops) == 1 and isinstance(t.left, ast.Name) and t.left.id in none_vars \
+                and isinstance(t.comparators[0], ast.Constant) and t.comparators[0].value is None:
+            if isinstance(t.ops[0], (ast.Is, ast.Eq)):
+                truth = True
+            elif isinstance(t.ops[0], (ast.IsNot, ast.NotEq)):
+                truth = False
+        elif isinstance(t, ast.Name) and t.id in none_vars:
+            truth = False
+        if truth is None:
+            return True
+        if neg:
+            truth = not truth
+        return (lab == "T") == truth
+
+    def reassigned(n):
+        a = n.ast
+        return n.kind == "stmt" and isinstance(a, (ast.Assign, ast.AugAssign, ast.AnnAssign)) and any(
+            isinstance(x, ast.Name) and isinstance(x.ctx, ast.Store) and x.id in none_vars for x in ast.walk(a))
+    seen = set()
+    todo = [(start, True)]
+    while todo:
+        i, still_none = todo.pop()
+        if (i, still_none) in seen:
+            continue
+        seen.add((i, still_none))
+        n = cfg.nodes[i]
+        if i in checks and i != start:
+            continue
+        if reassigned(n):
+            still_none = False
+        for j, lab in cfg.succ[i]:
+            if still_none and not branch_ok(n, lab):
+                continue
+            if j == target:
+                return True
+            todo.append((j, still_none))
+    return False
+
+
 def _r2(run, st):
     project = run.project
     cfg, f = st.cfg, st.func
@@ -192,7 +259,7 @@ def _r2(run, st):
                     if not hn:
                         continue
                     # from the handler, can the loop head be reached again without a liveness check?
-                    if lh.id in cfg.reachable(hn[0].id, avoid=site_ids):
+                    if _reaches_unchecked(cfg, f, t, hn[0].id, lh.id, site_ids):
                         run.violated("C19.R2", f, h, "polling loop: the handler at line %d goes back to waiting on %s without "
                                      "checking that the workers are still alive; if a worker died the completion it owed never "
                                      "arrives and the loop never ends" % (h.lineno, qv), kind="poll-without-liveness", **facts)
@@ -329,7 +396,14 @@ def _r3_handlers(run, func, role, protocol_calls):
             falls = cfg.exit.id in cfg.reachable(hn[0].id, skip_labels=()) or any(
                 cfg.nodes[i].kind == "loop" for i in cfg.reachable(hn[0].id))
             always_raises = not (cfg.exit.id in cfg.reachable(hn[0].id)) and not _reaches_outside(cfg, hn[0], h)
-            if only_protocol:
+            caught = []
+            if h.type is not None:
+                for x in (h.type.elts if isinstance(h.type, ast.Tuple) else [h.type]):
+                    caught.append((dotted(x) or "?").split(".")[-1])
+            if caught and set(caught) <= {"Empty", "Full"}:
+                # queue.Empty / queue.Full are raised only by timed queue operations: no processing error is caught here
+                run.holds("C19.R3", func, h, "%s: handler catches only queue timeouts (%s)" % (role, ", ".join(caught)), function=func.short)
+            elif only_protocol:
                 run.holds("C19.R3", func, h, "%s: handler guards queue/bookkeeping calls only" % role, function=func.short)
             elif always_raises:
                 run.holds("C19.R3", func, h, "%s: handler re-raises" % role, function=func.short)
